@@ -144,7 +144,7 @@ func forall(lo, hi int, f func(int) bool) bool {
 //@           result.OperatorCheckpoints == s.state.completedSnapshots[len(s.state.completedSnapshots)-1].operatorCheckpoints
 
 //@ func Store.AbortPendingCheckpoint
-//@   property C12 C15
+//@   property C12 C15 C13
 //@   modifies s.state
 //@   ensures s.state.pendingSnapshot == nil && s.state.checkpointID == old(s.state.checkpointID) && same(s.state.completedSnapshots, old(s.state.completedSnapshots))
 
@@ -168,6 +168,9 @@ func forall(lo, hi int, f func(int) bool) bool {
 
 // With a savepoint URI configured (C14) the job state comes from that savepoint: its DKV files
 // are copied back into place before the checkpoint is adopted.
+// (checks: every part of the loaded checkpoint - operator checkpoints, split states AND the splitter's
+// state - is carried into the store's current checkpoint: a job started from a savepoint resumes
+// its sources where the savepoint left them.)
 //@ func Store.LoadCheckpoint
 //@   property C13 C12 C14
 //@   exclusive
@@ -177,6 +180,10 @@ func forall(lo, hi int, f func(int) bool) bool {
 //@   order RestoreCheckpointFromSavepointArtifact after SnapshotForURI
 //@   ensures result == nil && s.savepointURI != "" ==> len(s.state.completedSnapshots) == 1 && s.state.checkpointID == s.state.completedSnapshots[0].id
 //@   ensures result == nil && s.savepointURI != "" ==> called(RestoreCheckpointFromSavepointArtifact)
+//@   checks result == nil && loadedCheckpoint != nil ==> len(s.state.completedSnapshots) == 1 && s.state.checkpointID == loadedCheckpoint.Id &&
+//@          s.state.completedSnapshots[0].id == loadedCheckpoint.Id && same(s.state.completedSnapshots[0].operatorCheckpoints, loadedCheckpoint.OperatorCheckpoints) &&
+//@          same(s.state.completedSnapshots[0].splitStates, loadedCheckpoint.SourceCheckpoints[0].SplitStates) &&
+//@          same(s.state.completedSnapshots[0].splitterState, loadedCheckpoint.SourceCheckpoints[0].SplitterState)
 //@   atcall SnapshotForURI@1: ghostIsSnap(arg0) && exists(0, seqlen(ghostListing(s.fileStore)), func(i int) bool { return seqat(ghostListing(s.fileStore), i) == arg0 }) &&
 //@          forall(0, seqlen(ghostListing(s.fileStore)), func(i int) bool { return ghostIsSnap(seqat(ghostListing(s.fileStore), i)) ==> ghostSnapID(seqat(ghostListing(s.fileStore), i)) <= ghostSnapID(arg0) })
 //@   loop 0:
